@@ -41,9 +41,10 @@ def integral_data(ir: FormIR) -> IntegralData:
 
         ids += [_ids[i] for i in id_sort]
         names += [ir.integral_names[itg_type][i] for i in id_sort]
-        domains += [ir.integral_domains[itg_type][i] for i in id_sort]
+        _domains = [ir.integral_domains[itg_type][i] for i in id_sort]
+        domains += _domains
 
-        offsets.append(offsets[-1] + sum(len(d) for d in domains[offsets[-1] :]))
+        offsets.append(offsets[-1] + sum(len(d) for d in _domains))
 
     return IntegralData(names, ids, offsets, domains)
 
